@@ -9,7 +9,7 @@
    component is a strongly connected component of the graph. *)
 From Coq Require Import Arith NArith List Bool Lia Relations.
 Import ListNotations.
-Require Import EmbossV.Deps.Graph EmbossV.Deps.Tarjan.
+Require Import EmbossV.Deps.Graph EmbossV.Deps.Kahn EmbossV.Deps.Tarjan.
 
 Definition idx (st : tstate) (u : N) : option N := get st.(indices) u.
 Definition low (st : tstate) (u : N) : option N := get st.(lowlinks) u.
@@ -50,6 +50,11 @@ Proof.
   - apply N.eqb_neq in E. cbn. rewrite IH. split.
     + intros [H|[H1 H2]]; [subst; split; auto|auto].
     + intros [[H1|H1] H2]; auto.
+Qed.
+
+Lemma nodup_app_r : forall (a b : list N), NoDup (a ++ b) -> NoDup b.
+Proof.
+  induction a as [|x a IH]; cbn; intros b H; [exact H|]. inversion H. auto.
 Qed.
 
 (* ======================================================================== *)
@@ -266,3 +271,663 @@ Section PartA.
     - rewrite Hm, Hc. reflexivity.
   Qed.
 End PartA.
+
+(* ======================================================================== *)
+(* Part B: no component reported => acyclic                                  *)
+(* ======================================================================== *)
+
+Definition popped (st : tstate) (u : N) : Prop := idx st u <> None /\ ~ In u st.(stack).
+
+(* the invariant of the sink-removal argument (as in Kahn.v), on a predicate *)
+Definition KI (g : graph) (P : N -> Prop) : Prop :=
+  (forall u w, P u -> edge g u w -> P w) /\
+  (forall u, P u -> ~ clos_trans N (edge g) u u).
+
+Lemma KI_ext : forall g (P Q : N -> Prop), (forall u, P u <-> Q u) -> KI g P -> KI g Q.
+Proof.
+  intros g P Q H [H1 H2]. split.
+  - intros u w Hu He. apply H. eapply H1; [apply H; exact Hu|exact He].
+  - intros u Hu. apply H2. apply H. exact Hu.
+Qed.
+
+Lemma KI_add : forall g (P : N -> Prop) v,
+  KI g P -> ~ P v -> (forall w, edge g v w -> P w) ->
+  KI g (fun u => P u \/ u = v).
+Proof.
+  intros g P v [H1 H2] Hnv Hs. split.
+  - intros u w [Hu| ->] He; left; [eapply H1; eauto|apply Hs; exact He].
+  - intros u [Hu| ->] Hc; [exact (H2 u Hu Hc)|].
+    destruct (clos_trans_first _ _ _ Hc) as [y [Hvy [->|Hyv]]].
+    + apply Hnv. apply Hs. exact Hvy.
+    + apply Hnv. apply (reach_closed_set (edge g) P) with (u := y);
+        [intros a b Ha Hab; eapply H1; eauto|exact Hyv|apply Hs; exact Hvy].
+Qed.
+
+(* low-links and stack indices never drop below the index at which a top-level call started *)
+Definition Kinv (b : N) (st : tstate) : Prop :=
+  (forall x, In x st.(stack) -> exists i, idx st x = Some i /\ (b <= i)%N) /\
+  (forall u i, idx st u = Some i -> (b <= i)%N -> exists l, low st u = Some l /\ (b <= l)%N).
+
+Record wf (st : tstate) : Prop := {
+  w_on : forall x, In x st.(on_stack) <-> In x st.(stack);
+  w_stk_idx : forall x, In x st.(stack) -> idx st x <> None;
+  w_idx_lt : forall u i, idx st u = Some i -> (i < st.(next_index))%N;
+  w_low : forall u i, idx st u = Some i -> exists l, low st u = Some l /\ (l <= i)%N;
+  w_nodup : NoDup st.(stack)
+}.
+
+Record bpost (g : graph) (st st' : tstate) (v : N) : Prop := {
+  b_idx_keep : forall u i, idx st u = Some i -> idx st' u = Some i;
+  b_low_keep : forall u, idx st u <> None -> low st' u = low st u;
+  b_new_ge : forall u i, idx st u = None -> idx st' u = Some i -> (st.(next_index) <= i)%N;
+  b_idx_v : idx st' v = Some st.(next_index);
+  b_next : (st.(next_index) <= st'.(next_index))%N;
+  b_stack : exists X, st'.(stack) = X ++ st.(stack) /\ forall x, In x X -> idx st x = None;
+  b_root : low st' v = idx st' v -> st'.(stack) = st.(stack);
+  b_comps : exists C, st'.(comps) = C ++ st.(comps);
+  b_ki : st'.(comps) = [] -> KI g (popped st) -> KI g (popped st');
+  b_k : forall b, (b <= st.(next_index))%N -> Kinv b st -> Kinv b st'
+}.
+
+Lemma pop_until_spec : forall v X R ons acc, ~ In v X ->
+  exists ons', pop_until v (X ++ v :: R) ons acc = Some (R, ons', acc ++ X ++ [v]) /\
+               forall x, In x ons' <-> (In x ons /\ ~ In x X /\ x <> v).
+Proof.
+  induction X as [|y X IH]; intros R ons acc Hn.
+  - cbn. rewrite N.eqb_refl. eexists. split; [reflexivity|].
+    intros x. rewrite in_remove_all. tauto.
+  - cbn [app pop_until]. destruct (N.eqb y v) eqn:E.
+    + apply N.eqb_eq in E. subst. exfalso. apply Hn. left. reflexivity.
+    + destruct (IH R (remove_all y ons) (acc ++ [y])) as [ons' [Hp Hi]].
+      * intro. apply Hn. right. assumption.
+      * exists ons'. split.
+        -- rewrite Hp. rewrite <- app_assoc. reflexivity.
+        -- intros x. rewrite Hi, in_remove_all. cbn. apply N.eqb_neq in E. split.
+           ++ intros [[H1 H2] [H3 H4]]. repeat split; auto. intros [H|H]; auto.
+           ++ intros [H1 [H2 H3]]. repeat split; auto.
+Qed.
+
+Section PartB.
+  Variable g : graph.
+
+  Lemma popped_mono : forall st s v X,
+    s.(stack) = X ++ v :: st.(stack) -> (forall x, In x X -> idx st x = None) -> idx st v = None ->
+    (forall u i, idx st u = Some i -> idx s u = Some i) ->
+    forall u, popped st u -> popped s u.
+  Proof.
+    intros st s v X Hs HX Hv Hk u [H1 H2]. split.
+    - destruct (idx st u) as [i|] eqn:E; [|congruence]. rewrite (Hk u i E). discriminate.
+    - rewrite Hs. intro Hin. apply in_app_iff in Hin. destruct Hin as [Hin|[<-|Hin]].
+      + apply H1. apply HX. exact Hin.
+      + apply H1. exact Hv.
+      + apply H2. exact Hin.
+  Qed.
+
+  Lemma wf_push : forall v st, wf st -> idx st v = None -> wf (push v st).
+  Proof.
+    intros v st W Hv. destruct W as [W1 W2 W3 W4 W5]. constructor.
+    - intros x. cbn. rewrite W1. tauto.
+    - intros x Hx. rewrite idx_push. destruct (N.eqb v x) eqn:E; [discriminate|].
+      cbn in Hx. destruct Hx as [->|Hx]; [rewrite N.eqb_refl in E; discriminate|auto].
+    - intros u i. rewrite idx_push. cbn [push next_index]. destruct (N.eqb v u).
+      + intros E. inversion E. lia.
+      + intros E. specialize (W3 u i E). lia.
+    - intros u i. rewrite idx_push, low_push. destruct (N.eqb v u).
+      + intros E. inversion E. subst. exists st.(next_index). split; [reflexivity|lia].
+      + apply W4.
+    - cbn. constructor; [|exact W5]. intro Hin. exact (W2 v Hin Hv).
+  Qed.
+
+  Lemma Kinv_push : forall b v st, (b <= st.(next_index))%N -> idx st v = None ->
+    Kinv b st -> Kinv b (push v st).
+  Proof.
+    intros b v st Hb Hv [K1 K2]. split.
+    - intros x Hx. rewrite idx_push. destruct (N.eqb v x) eqn:E.
+      + exists st.(next_index). auto.
+      + cbn in Hx. destruct Hx as [->|Hx]; [rewrite N.eqb_refl in E; discriminate|auto].
+    - intros u i. rewrite idx_push, low_push. destruct (N.eqb v u).
+      + intros E Hi. inversion E. subst. exists st.(next_index). auto.
+      + apply K2.
+  Qed.
+
+  Lemma wf_set_low : forall v x a s, wf s -> low s v = Some a -> (x <= a)%N -> wf (set_low v x s).
+  Proof.
+    intros v x a s [W1 W2 W3 W4 W5] Ha Hx. constructor.
+    - exact W1.
+    - exact W2.
+    - exact W3.
+    - intros u i Hu. change (idx (set_low v x s) u) with (idx s u) in Hu.
+      rewrite low_set_low. destruct (N.eqb v u) eqn:E.
+      + apply N.eqb_eq in E. subst u. exists x. split; [reflexivity|].
+        destruct (W4 v i Hu) as [l [Hl Hle]]. rewrite Ha in Hl. inversion Hl. subst. lia.
+      + apply W4. exact Hu.
+    - exact W5.
+  Qed.
+
+  Lemma Kinv_set_low : forall b v x s, Kinv b s -> (b <= x)%N -> Kinv b (set_low v x s).
+  Proof.
+    intros b v x s [K1 K2] Hx. split; [exact K1|].
+    intros u i Hu Hi. change (idx (set_low v x s) u) with (idx s u) in Hu.
+    rewrite low_set_low. destruct (N.eqb v u) eqn:E.
+    - exists x. auto.
+    - apply (K2 u i); assumption.
+  Qed.
+
+  (* loop invariant of the successor loop; D = successors already processed *)
+  Record linvB (st : tstate) (v : N) (D : list N) (s : tstate) : Prop := {
+    lb_wf : wf s;
+    lb_stack : exists X, s.(stack) = X ++ v :: st.(stack) /\ forall x, In x X -> idx st x = None;
+    lb_idx_v : idx s v = Some st.(next_index);
+    lb_idx_keep : forall u i, idx st u = Some i -> idx s u = Some i;
+    lb_low_keep : forall u, idx st u <> None -> low s u = low st u;
+    lb_new_ge : forall u i, idx st u = None -> idx s u = Some i -> (st.(next_index) <= i)%N;
+    lb_next : (st.(next_index) < s.(next_index))%N;
+    lb_J : forall d, In d D -> exists di, idx s d = Some di /\
+             (In d s.(stack) -> exists lv, low s v = Some lv /\ (lv <= di)%N);
+    lb_comps : exists C, s.(comps) = C ++ st.(comps);
+    lb_ki : s.(comps) = [] -> KI g (popped st) -> KI g (popped s);
+    lb_k : forall b, (b <= st.(next_index))%N -> Kinv b st -> Kinv b s
+  }.
+
+  Section VisitB.
+    Variable f : nat.
+    Hypothesis IHf : forall v st st',
+      strong_connect f g v st = TOk st' -> wf st -> idx st v = None ->
+      wf st' /\ bpost g st st' v.
+
+    Lemma visit_sound : forall st v, wf st -> idx st v = None ->
+      forall ds D s s',
+      visit (strong_connect f g) v ds s = TOk s' ->
+      linvB st v D s -> linvB st v (D ++ ds) s'.
+    Proof.
+      intros st v Wst Hvn. induction ds as [|d ds IH]; intros D s s' Hvis L.
+      - cbn in Hvis. inversion Hvis. subst. rewrite app_nil_r. exact L.
+      - replace (D ++ d :: ds) with ((D ++ [d]) ++ ds) by (rewrite <- app_assoc; reflexivity).
+        cbn [visit] in Hvis. fold (idx s d) in Hvis.
+        destruct (lb_stack _ _ _ _ L) as [X [HsX HX]].
+        pose proof (lb_wf _ _ _ _ L) as Ws.
+        destruct (idx s d) as [di|] eqn:Ed.
+        + destruct (mem d s.(on_stack)) eqn:Em.
+          * (* on the stack: lowlink[v] = min(lowlink[v], index[d]) *)
+            fold (low s v) in Hvis. destruct (low s v) as [a|] eqn:Ea; [|discriminate].
+            apply IH with (s := set_low v (N.min a di) s); [exact Hvis|].
+            destruct Ws as [W1 W2 W3 W4 W5].
+            constructor.
+            -- apply wf_set_low with (a := a); [constructor; assumption|exact Ea|lia].
+            -- exists X. split; [exact HsX|exact HX].
+            -- exact (lb_idx_v _ _ _ _ L).
+            -- exact (lb_idx_keep _ _ _ _ L).
+            -- intros u Hu. rewrite low_set_low. destruct (N.eqb v u) eqn:E.
+               ++ apply N.eqb_eq in E. subst u. congruence.
+               ++ apply (lb_low_keep _ _ _ _ L). exact Hu.
+            -- exact (lb_new_ge _ _ _ _ L).
+            -- exact (lb_next _ _ _ _ L).
+            -- intros d' Hd'. apply in_app_iff in Hd'. destruct Hd' as [Hd'|[<-|[]]].
+               ++ destruct (lb_J _ _ _ _ L d' Hd') as [d'i [Hi Hs]].
+                  exists d'i. split; [exact Hi|]. intros Hin. destruct (Hs Hin) as [lv [Hlv Hle]].
+                  exists (N.min a di). rewrite low_set_low, N.eqb_refl. split; [reflexivity|].
+                  rewrite Ea in Hlv. inversion Hlv. subst. lia.
+               ++ exists di. split; [exact Ed|]. intros _. exists (N.min a di).
+                  rewrite low_set_low, N.eqb_refl. split; [reflexivity|lia].
+            -- exact (lb_comps _ _ _ _ L).
+            -- exact (lb_ki _ _ _ _ L).
+            -- intros b Hb HK. pose proof (lb_k _ _ _ _ L b Hb HK) as HKs.
+               apply Kinv_set_low; [exact HKs|]. destruct HKs as [K1 K2].
+               assert (Hb' : (b <= st.(next_index))%N) by exact Hb.
+               destruct (K2 v _ (lb_idx_v _ _ _ _ L) Hb') as [l [Hl Hle]]. rewrite Ea in Hl. inversion Hl. subst.
+               assert (Hdin : In d s.(stack)) by (apply W1; apply mem_In; exact Em).
+               destruct (K1 d Hdin) as [j [Hj Hjb]]. rewrite Ed in Hj. inversion Hj. subst. lia.
+          * (* indexed and already popped: nothing happens *)
+            apply IH with (s := s); [exact Hvis|].
+            destruct L as [L1 L2 L3 L4 L5 L6 L7 L8 L9 L10 L11]. constructor; auto.
+            intros d' Hd'. apply in_app_iff in Hd'. destruct Hd' as [Hd'|[<-|[]]]; [auto|].
+            exists di. split; [exact Ed|]. intros Hin. exfalso.
+            apply (w_on _ Ws) in Hin. apply mem_In in Hin. congruence.
+        + (* not indexed: recursive call, then lowlink[v] = min(lowlink[v], lowlink[d]) *)
+          destruct (strong_connect f g d s) as [s1| |] eqn:Hsc; try discriminate.
+          destruct (IHf d s s1 Hsc Ws Ed) as [W1 P1].
+          fold (low s1 v) in Hvis. fold (low s1 d) in Hvis.
+          destruct (low s1 v) as [a|] eqn:Ea; [|discriminate].
+          destruct (low s1 d) as [b0|] eqn:Eb; [|discriminate].
+          apply IH with (s := set_low v (N.min a b0) s1); [exact Hvis|].
+          assert (Hidxv1 : idx s1 v = Some st.(next_index))
+            by (apply (b_idx_keep _ _ _ _ P1); exact (lb_idx_v _ _ _ _ L)).
+          assert (Hlowv : low s v = Some a).
+          { rewrite <- (b_low_keep _ _ _ _ P1 v); [exact Ea|]. rewrite (lb_idx_v _ _ _ _ L). discriminate. }
+          destruct (b_stack _ _ _ _ P1) as [X1 [Hs1 HX1]].
+          destruct W1 as [V1 V2 V3 V4 V5].
+          constructor.
+          -- apply wf_set_low with (a := a); [constructor; assumption|exact Ea|lia].
+          -- exists (X1 ++ X). split.
+             ++ cbn. rewrite Hs1, HsX. rewrite app_assoc. reflexivity.
+             ++ intros x Hx. apply in_app_iff in Hx. destruct Hx as [Hx|Hx]; [|auto].
+                specialize (HX1 x Hx). destruct (idx st x) as [j|] eqn:Ej; [|reflexivity].
+                rewrite (lb_idx_keep _ _ _ _ L x j Ej) in HX1. discriminate.
+          -- exact Hidxv1.
+          -- intros u i Hu. apply (b_idx_keep _ _ _ _ P1). apply (lb_idx_keep _ _ _ _ L). exact Hu.
+          -- intros u Hu. rewrite low_set_low. destruct (N.eqb v u) eqn:E.
+             ++ apply N.eqb_eq in E. subst u. congruence.
+             ++ rewrite (b_low_keep _ _ _ _ P1 u).
+                ** apply (lb_low_keep _ _ _ _ L). exact Hu.
+                ** destruct (idx st u) as [j|] eqn:Ej; [|congruence].
+                   rewrite (lb_idx_keep _ _ _ _ L u j Ej). discriminate.
+          -- intros u i Hu Hi. change (idx (set_low v (N.min a b0) s1) u) with (idx s1 u) in Hi.
+             destruct (idx s u) as [j|] eqn:Ej.
+             ++ rewrite (b_idx_keep _ _ _ _ P1 u j Ej) in Hi. inversion Hi. subst.
+                apply (lb_new_ge _ _ _ _ L u i Hu Ej).
+             ++ pose proof (b_new_ge _ _ _ _ P1 u i Ej Hi). pose proof (lb_next _ _ _ _ L). lia.
+          -- cbn. pose proof (b_next _ _ _ _ P1). pose proof (lb_next _ _ _ _ L). lia.
+          -- intros d' Hd'. apply in_app_iff in Hd'. destruct Hd' as [Hd'|[<-|[]]].
+             ++ destruct (lb_J _ _ _ _ L d' Hd') as [d'i [Hi Hs]].
+                exists d'i. split; [apply (b_idx_keep _ _ _ _ P1); exact Hi|].
+                intros Hin. cbn in Hin. rewrite Hs1 in Hin. apply in_app_iff in Hin.
+                destruct Hin as [Hin|Hin]; [rewrite (HX1 d' Hin) in Hi; discriminate|].
+                destruct (Hs Hin) as [lv [Hlv Hle]]. rewrite Hlowv in Hlv. inversion Hlv. subst.
+                exists (N.min lv b0). rewrite low_set_low, N.eqb_refl. split; [reflexivity|lia].
+             ++ pose proof (b_idx_v _ _ _ _ P1) as Hd1. exists s.(next_index).
+                split; [exact Hd1|]. intros _. exists (N.min a b0).
+                rewrite low_set_low, N.eqb_refl. split; [reflexivity|].
+                destruct (V4 d _ Hd1) as [l [Hl Hle]]. rewrite Eb in Hl. inversion Hl. subst. lia.
+          -- destruct (lb_comps _ _ _ _ L) as [C HC]. destruct (b_comps _ _ _ _ P1) as [C1 HC1].
+             exists (C1 ++ C). cbn. rewrite HC1, HC, app_assoc. reflexivity.
+          -- intros Hc HK. cbn in Hc.
+             assert (Hcs : s.(comps) = []).
+             { destruct (b_comps _ _ _ _ P1) as [C1 HC1]. rewrite Hc in HC1.
+               symmetry in HC1. apply app_eq_nil in HC1. tauto. }
+             exact (b_ki _ _ _ _ P1 Hc (lb_ki _ _ _ _ L Hcs HK)).
+          -- intros b Hb HK.
+             assert (Hbs : (b <= s.(next_index))%N) by (pose proof (lb_next _ _ _ _ L); lia).
+             pose proof (b_k _ _ _ _ P1 b Hbs (lb_k _ _ _ _ L b Hb HK)) as HK1.
+             apply Kinv_set_low; [exact HK1|]. destruct HK1 as [K1 K2].
+             destruct (K2 v _ Hidxv1 Hb) as [l [Hl Hle]]. rewrite Ea in Hl. inversion Hl. subst.
+             pose proof (b_idx_v _ _ _ _ P1) as Hd1.
+             destruct (K2 d _ Hd1 Hbs) as [l' [Hl' Hle']]. rewrite Eb in Hl'. inversion Hl'. subst. lia.
+    Qed.
+  End VisitB.
+
+  Lemma linvB_init : forall st v, wf st -> idx st v = None -> linvB st v [] (push v st).
+  Proof.
+    intros st v W Hv. constructor.
+    - apply wf_push; assumption.
+    - exists []. split; [reflexivity|intros x []].
+    - rewrite idx_push, N.eqb_refl. reflexivity.
+    - intros u i Hu. rewrite idx_push. destruct (N.eqb v u) eqn:E; [|exact Hu].
+      apply N.eqb_eq in E. subst u. congruence.
+    - intros u Hu. rewrite low_push. destruct (N.eqb v u) eqn:E; [|reflexivity].
+      apply N.eqb_eq in E. subst u. congruence.
+    - intros u i Hu. rewrite idx_push. destruct (N.eqb v u) eqn:E.
+      + intros H. inversion H. lia.
+      + intros H. congruence.
+    - cbn. lia.
+    - intros d [].
+    - exists []. reflexivity.
+    - intros _ HK. apply KI_ext with (P := popped st); [|exact HK].
+      intros u. unfold popped. rewrite idx_push. cbn [push stack]. split.
+      + intros [H1 H2]. destruct (N.eqb v u) eqn:E.
+        * apply N.eqb_eq in E. subst u. congruence.
+        * split; [exact H1|]. intros [Hin|Hin]; [subst; rewrite N.eqb_refl in E; discriminate|auto].
+      + intros [H1 H2]. destruct (N.eqb v u) eqn:E.
+        * exfalso. apply H2. left. apply N.eqb_eq. exact E.
+        * split; [exact H1|]. intro Hin. apply H2. right. exact Hin.
+    - intros b Hb HK. apply Kinv_push; assumption.
+  Qed.
+
+  Lemma nontrivial_false : forall X v, nontrivial g (X ++ [v]) = Some false ->
+    X = [] /\ mem v (succs g v) = false.
+  Proof.
+    intros X v H. destruct X as [|x X].
+    - cbn in H. destruct (has_key g v); [|discriminate]. inversion H. auto.
+    - cbn in H. destruct (X ++ [v]) eqn:E; [destruct X; discriminate|discriminate].
+  Qed.
+
+  Lemma sc_sound : forall fuel v st st',
+    strong_connect fuel g v st = TOk st' -> wf st -> idx st v = None ->
+    wf st' /\ bpost g st st' v.
+  Proof.
+    induction fuel as [|f IHf]; intros v st st' H W Hv; [discriminate|].
+    cbn [strong_connect] in H.
+    destruct (has_key g v) eqn:Hk; [|discriminate].
+    destruct (visit (strong_connect f g) v (succs g v) (push v st)) as [s| |] eqn:Hvis; try discriminate.
+    pose proof (visit_sound f IHf st v W Hv _ _ _ _ Hvis (linvB_init st v W Hv)) as L.
+    cbn [app] in L.
+    unfold finish in H. fold (low s v) in H. fold (idx s v) in H.
+    rewrite (lb_idx_v _ _ _ _ L) in H.
+    destruct (low s v) as [l|] eqn:El; [|discriminate].
+    destruct (lb_stack _ _ _ _ L) as [X [HsX HX]].
+    pose proof (lb_wf _ _ _ _ L) as Ws.
+    assert (HXv : forall x, In x (X ++ [v]) -> idx st x = None).
+    { intros x Hx. apply in_app_iff in Hx. destruct Hx as [Hx|[<-|[]]]; auto. }
+    destruct (N.eqb l st.(next_index)) eqn:Eroot.
+    - (* v is a root: pop the component *)
+      apply N.eqb_eq in Eroot. subst l.
+      assert (Hnd : NoDup (X ++ v :: st.(stack))) by (rewrite <- HsX; exact (w_nodup _ Ws)).
+      assert (HvX : ~ In v X).
+      { intro Hin. apply NoDup_remove_2 in Hnd. apply Hnd. apply in_app_iff. left. exact Hin. }
+      destruct (pop_until_spec v X st.(stack) s.(on_stack) [] HvX) as [ons' [Hp Hons]].
+      rewrite HsX, Hp in H. cbn [app] in H.
+      destruct (nontrivial g (X ++ [v])) as [b|] eqn:Ent; [|discriminate].
+      inversion H; subst st'; clear H.
+      assert (HndR : NoDup st.(stack)).
+      { apply nodup_app_r in Hnd. inversion Hnd. assumption. }
+      assert (HRX : forall x, In x st.(stack) -> ~ In x X /\ x <> v).
+      { intros x Hx. split.
+        - intro HxX. revert Hnd. clear -Hx HxX. induction X as [|y X IH]; [destruct HxX|].
+          cbn. intros Hnd. inversion Hnd; subst. destruct HxX as [->|HxX].
+          + apply H1. apply in_app_iff. right. right. exact Hx.
+          + apply IH; assumption.
+        - intros ->. apply NoDup_remove_2 in Hnd. apply Hnd. apply in_app_iff. right. exact Hx. }
+      destruct Ws as [W1 W2 W3 W4 W5].
+      split.
+      + constructor; cbn [on_stack stack next_index].
+        * intros x. rewrite Hons, W1, HsX. split.
+          -- intros [Hin [H1 H2]]. apply in_app_iff in Hin. destruct Hin as [Hin|[Hin|Hin]]; [tauto|congruence|exact Hin].
+          -- intros Hin. destruct (HRX x Hin) as [H1 H2]. split; [|tauto].
+             apply in_app_iff. right. right. exact Hin.
+        * intros x Hx. apply (W2 x). rewrite HsX. apply in_app_iff. right. right. exact Hx.
+        * exact W3.
+        * exact W4.
+        * exact HndR.
+      + constructor; cbn [stack comps next_index].
+        * exact (lb_idx_keep _ _ _ _ L).
+        * exact (lb_low_keep _ _ _ _ L).
+        * exact (lb_new_ge _ _ _ _ L).
+        * exact (lb_idx_v _ _ _ _ L).
+        * pose proof (lb_next _ _ _ _ L). lia.
+        * exists []. split; [reflexivity|intros x []].
+        * reflexivity.
+        * destruct (lb_comps _ _ _ _ L) as [C HC]. destruct b.
+          -- exists ((X ++ [v]) :: C). rewrite HC. reflexivity.
+          -- exists C. exact HC.
+        * intros Hc HK. destruct b; [discriminate|].
+          destruct (nontrivial_false _ _ Ent) as [-> Hself].
+          cbn [app] in HsX.
+          pose proof (lb_ki _ _ _ _ L Hc HK) as HKs.
+          apply KI_ext with (P := fun u => popped s u \/ u = v).
+          -- intros u. unfold popped. cbn [stack]. rewrite HsX. split.
+             ++ intros [[H1 H2]| ->].
+                ** split; [exact H1|]. intro Hin. apply H2. right. exact Hin.
+                ** split.
+                   --- change (idx s v <> None). rewrite (lb_idx_v _ _ _ _ L). discriminate.
+                   --- intro Hin. exact (proj2 (HRX v Hin) eq_refl).
+             ++ intros [H1 H2]. destruct (N.eq_dec u v) as [->|Hne]; [right; reflexivity|].
+                left. split; [exact H1|]. intros [Hin|Hin]; [congruence|auto].
+          -- apply KI_add; [exact HKs| |].
+             ++ intros [_ Hn]. apply Hn. rewrite HsX. left. reflexivity.
+             ++ intros w Hvw. apply succs_edge in Hvw.
+                destruct (lb_J _ _ _ _ L w Hvw) as [wi [Hwi Hst]]. split.
+                ** rewrite Hwi. discriminate.
+                ** intro Hin. destruct (Hst Hin) as [lv [Hlv Hle]]. rewrite El in Hlv. inversion Hlv. subst lv.
+                   rewrite HsX in Hin. destruct Hin as [<-|Hin].
+                   --- apply mem_false in Hself. exact (Hself Hvw).
+                   --- destruct (idx st w) as [j|] eqn:Ej.
+                       +++ pose proof (w_idx_lt _ W w j Ej).
+                           rewrite (lb_idx_keep _ _ _ _ L w j Ej) in Hwi. inversion Hwi. subst. lia.
+                       +++ exact (w_stk_idx _ W w Hin Ej).
+        * intros b0 Hb HK. destruct (lb_k _ _ _ _ L b0 Hb HK) as [K1 K2]. split.
+          -- intros x Hx. apply (K1 x). rewrite HsX. apply in_app_iff. right. right. exact Hx.
+          -- exact K2.
+    - (* not a root: v stays on the stack *)
+      inversion H; subst st'; clear H. split; [exact Ws|].
+      constructor.
+      + exact (lb_idx_keep _ _ _ _ L).
+      + exact (lb_low_keep _ _ _ _ L).
+      + exact (lb_new_ge _ _ _ _ L).
+      + exact (lb_idx_v _ _ _ _ L).
+      + pose proof (lb_next _ _ _ _ L). lia.
+      + exists (X ++ [v]). split; [rewrite HsX, <- app_assoc; reflexivity|exact HXv].
+      + intros Heq. rewrite El, (lb_idx_v _ _ _ _ L) in Heq. inversion Heq. subst.
+        rewrite N.eqb_refl in Eroot. discriminate.
+      + exact (lb_comps _ _ _ _ L).
+      + exact (lb_ki _ _ _ _ L).
+      + exact (lb_k _ _ _ _ L).
+  Qed.
+
+  Lemma main_loop_sound : forall fuel ns st st',
+    main_loop fuel g ns st = TOk st' -> wf st -> st.(stack) = [] ->
+    wf st' /\ st'.(stack) = [] /\
+    (exists C, st'.(comps) = C ++ st.(comps)) /\
+    (st'.(comps) = [] -> KI g (popped st) -> KI g (popped st')) /\
+    (forall u, idx st u <> None -> idx st' u <> None) /\
+    (forall n, In n ns -> idx st' n <> None).
+  Proof.
+    intros fuel. induction ns as [|n t IH]; intros st st' H W Hs.
+    - inversion H; subst. split; [exact W|]. split; [exact Hs|]. split; [exists []; reflexivity|].
+      split; [auto|]. split; [auto|]. intros n [].
+    - cbn [main_loop] in H. fold (idx st n) in H. destruct (idx st n) as [i|] eqn:En.
+      + destruct (IH st st' H W Hs) as [W' [Hs' [HC [HK [Hk Hn]]]]].
+        split; [exact W'|]. split; [exact Hs'|]. split; [exact HC|]. split; [exact HK|].
+        split; [exact Hk|]. intros m [<-|Hm]; auto. apply Hk. rewrite En. discriminate.
+      + destruct (strong_connect fuel g n st) as [s1| |] eqn:Hsc; try discriminate.
+        destruct (sc_sound fuel n st s1 Hsc W En) as [W1 P1].
+        assert (Hs1 : s1.(stack) = []).
+        { rewrite <- Hs. apply (b_root _ _ _ _ P1).
+          assert (HK0 : Kinv st.(next_index) st).
+          { split.
+            - rewrite Hs. intros x [].
+            - intros u i Hu Hi. pose proof (w_idx_lt _ W u i Hu). lia. }
+          destruct (b_k _ _ _ _ P1 _ (N.le_refl _) HK0) as [_ K2].
+          destruct (K2 n _ (b_idx_v _ _ _ _ P1) (N.le_refl _)) as [l [Hl Hle]].
+          destruct (w_low _ W1 n _ (b_idx_v _ _ _ _ P1)) as [l' [Hl' Hle']].
+          rewrite Hl in Hl'. inversion Hl'. subst l'.
+          rewrite Hl, (b_idx_v _ _ _ _ P1). f_equal. lia. }
+        destruct (IH s1 st' H W1 Hs1) as [W' [Hs' [[C HC] [HK [Hk Hn]]]]].
+        destruct (b_comps _ _ _ _ P1) as [C1 HC1].
+        assert (Hkeep : forall u, idx st u <> None -> idx s1 u <> None).
+        { intros u Hu. destruct (idx st u) as [j|] eqn:Ej; [|congruence].
+          rewrite (b_idx_keep _ _ _ _ P1 u j Ej). discriminate. }
+        split; [exact W'|]. split; [exact Hs'|]. split.
+        { exists (C ++ C1). rewrite HC, HC1, app_assoc. reflexivity. }
+        split.
+        { intros Hc HK0. apply HK; [exact Hc|]. apply (b_ki _ _ _ _ P1); [|exact HK0].
+          rewrite Hc in HC. symmetry in HC. apply app_eq_nil in HC. tauto. }
+        split.
+        { intros u Hu. apply Hk. apply Hkeep. exact Hu. }
+        intros m [<-|Hm]; auto. apply Hk. rewrite (b_idx_v _ _ _ _ P1). discriminate.
+  Qed.
+
+  Lemma find_cycles_none_acyclic : forall fuel, find_cycles fuel g = TOk [] -> ~ cyclic g.
+  Proof.
+    intros fuel H. unfold find_cycles in H.
+    destruct (main_loop fuel g (nodes g) t_init) as [st'| |] eqn:Hm; try discriminate.
+    inversion H as [Hc]. clear H.
+    assert (W0 : wf t_init).
+    { constructor; cbn; try tauto; try (intros; discriminate); constructor. }
+    destruct (main_loop_sound fuel (nodes g) t_init st' Hm W0 eq_refl) as [W' [Hs' [_ [HK [_ Hn]]]]].
+    assert (HK0 : KI g (popped t_init)).
+    { split.
+      - intros u w [Hu _]. exfalso. apply Hu. reflexivity.
+      - intros u [Hu _]. exfalso. apply Hu. reflexivity. }
+    destruct (HK Hc HK0) as [_ Hac].
+    intros [v [Hv Hcyc]]. apply (Hac v); [|exact Hcyc].
+    split; [apply Hn; exact Hv|rewrite Hs'; intros []].
+  Qed.
+End PartB.
+
+(* ======================================================================== *)
+(* Part C: totality — on a closed graph with fuel > |g| the mirror returns    *)
+(* TOk (no dictionary/stack error, no exhausted fuel)                         *)
+(* ======================================================================== *)
+
+Definition unindexed_count (g : graph) (st : tstate) : nat :=
+  length (filter (fun u => match idx st u with None => true | Some _ => false end) (nodes g)).
+
+Lemma uc_le : forall g a b, (forall u, idx a u <> None -> idx b u <> None) ->
+  unindexed_count g b <= unindexed_count g a.
+Proof.
+  intros g a b H. unfold unindexed_count. induction (nodes g) as [|x t IH]; [cbn; lia|].
+  cbn. destruct (idx b x) eqn:Eb; destruct (idx a x) eqn:Ea; cbn; try lia.
+  exfalso. apply (H x); [rewrite Ea; discriminate|exact Eb].
+Qed.
+
+Lemma uc_lt : forall g a b v, (forall u, idx a u <> None -> idx b u <> None) ->
+  In v (nodes g) -> idx a v = None -> idx b v <> None ->
+  unindexed_count g b < unindexed_count g a.
+Proof.
+  intros g a b v H Hv Ha Hb. unfold unindexed_count.
+  induction (nodes g) as [|x t IH]; [destruct Hv|].
+  assert (Hle : length (filter (fun u => match idx b u with None => true | Some _ => false end) t) <=
+                length (filter (fun u => match idx a u with None => true | Some _ => false end) t)).
+  { clear -H. induction t as [|y t IH]; [cbn; lia|]. cbn.
+    destruct (idx b y) eqn:Eb; destruct (idx a y) eqn:Ea; cbn; try lia.
+    exfalso. apply (H y); [rewrite Ea; discriminate|exact Eb]. }
+  cbn. destruct Hv as [->|Hv].
+  - rewrite Ha. destruct (idx b v); [cbn; lia|congruence].
+  - specialize (IH Hv). destruct (idx b x) eqn:Eb; destruct (idx a x) eqn:Ea; cbn; try lia.
+    exfalso. apply (H x); [rewrite Ea; discriminate|exact Eb].
+Qed.
+
+Section PartC.
+  Variable g : graph.
+  Hypothesis Hcl : closed g.
+
+  Lemma visit_cons : forall rec v d ds s,
+    visit rec v (d :: ds) s =
+    match visit rec v [d] s with TOk s1 => visit rec v ds s1 | TErr => TErr | TNoFuel => TNoFuel end.
+  Proof.
+    intros. cbn [visit]. destruct (get (indices s) d).
+    - destruct (mem d (on_stack s)); [|reflexivity]. destruct (get (lowlinks s) v); reflexivity.
+    - destruct (rec d s); try reflexivity.
+      destruct (get (lowlinks a) v); [|reflexivity]. destruct (get (lowlinks a) d); reflexivity.
+  Qed.
+
+  Section VisitC.
+    Variable f : nat.
+    Hypothesis IHf : forall v st, wf st -> idx st v = None -> In v (nodes g) ->
+      unindexed_count g st < f -> exists st', strong_connect f g v st = TOk st'.
+
+    Lemma visit_total : forall st v, wf st -> idx st v = None ->
+      forall ds D s, (forall d, In d ds -> In d (nodes g)) ->
+      linvB g st v D s -> unindexed_count g s < f ->
+      exists s', visit (strong_connect f g) v ds s = TOk s'.
+    Proof.
+      intros st v Wst Hvn. induction ds as [|d ds IH]; intros D s Hds L HU.
+      - exists s. reflexivity.
+      - rewrite visit_cons.
+        assert (Hstep : exists s1, visit (strong_connect f g) v [d] s = TOk s1).
+        { cbn [visit]. fold (idx s d). pose proof (lb_wf _ _ _ _ _ L) as Ws.
+          destruct (w_low _ Ws v _ (lb_idx_v _ _ _ _ _ L)) as [a [Ha _]].
+          destruct (idx s d) as [di|] eqn:Ed.
+          - destruct (mem d s.(on_stack)); [|eexists; reflexivity].
+            fold (low s v). rewrite Ha. eexists. reflexivity.
+          - destruct (IHf d s Ws Ed (Hds d (or_introl eq_refl)) HU) as [s1 Hs1].
+            rewrite Hs1.
+            assert (HIH : forall v0 st0 st0', strong_connect f g v0 st0 = TOk st0' -> wf st0 -> idx st0 v0 = None ->
+                          wf st0' /\ bpost g st0 st0' v0) by (intros; eapply sc_sound; eauto).
+            destruct (HIH d s s1 Hs1 Ws Ed) as [W1 P1].
+            fold (low s1 v). fold (low s1 d).
+            destruct (w_low _ W1 v _ (b_idx_keep _ _ _ _ P1 v _ (lb_idx_v _ _ _ _ _ L))) as [a1 [Ha1 _]].
+            destruct (w_low _ W1 d _ (b_idx_v _ _ _ _ P1)) as [b1 [Hb1 _]].
+            rewrite Ha1, Hb1. eexists. reflexivity. }
+        destruct Hstep as [s1 Hs1]. rewrite Hs1.
+        assert (HIH : forall v0 st0 st0', strong_connect f g v0 st0 = TOk st0' -> wf st0 -> idx st0 v0 = None ->
+                      wf st0' /\ bpost g st0 st0' v0) by (intros; eapply sc_sound; eauto).
+        pose proof (visit_sound g f HIH st v Wst Hvn [d] D s s1 Hs1 L) as L1.
+        apply IH with (D := D ++ [d]); [intros; apply Hds; right; assumption|exact L1|].
+        eapply Nat.le_lt_trans; [|exact HU]. apply uc_le.
+        (* indexed nodes stay indexed across one step *)
+        intros u Hu. clear -Hs1 Hu HIH L.
+        cbn [visit] in Hs1. fold (idx s d) in Hs1. destruct (idx s d) as [di|] eqn:Ed.
+        + destruct (mem d s.(on_stack)).
+          * destruct (get (lowlinks s) v); [|discriminate]. inversion Hs1. subst. exact Hu.
+          * inversion Hs1. subst. exact Hu.
+        + destruct (strong_connect f g d s) as [s2| |] eqn:Hsc; try discriminate.
+          destruct (HIH d s s2 Hsc (lb_wf _ _ _ _ _ L) Ed) as [_ P2].
+          destruct (get (lowlinks s2) v); [|discriminate]. destruct (get (lowlinks s2) d); [|discriminate].
+          inversion Hs1. subst. change (idx s2 u <> None).
+          destruct (idx s u) as [j|] eqn:Ej; [|congruence].
+          rewrite (b_idx_keep _ _ _ _ P2 u j Ej). discriminate.
+    Qed.
+  End VisitC.
+
+  Lemma sc_total : forall fuel v st, wf st -> idx st v = None -> In v (nodes g) ->
+    unindexed_count g st < fuel -> exists st', strong_connect fuel g v st = TOk st'.
+  Proof.
+    induction fuel as [|f IHf]; intros v st W Hv Hn HU; [lia|].
+    cbn [strong_connect]. rewrite (proj2 (has_key_In g v) Hn).
+    assert (HUp : unindexed_count g (push v st) < f).
+    { assert (unindexed_count g (push v st) < unindexed_count g st); [|lia].
+      apply uc_lt with (v := v); auto.
+      - intros u Hu. rewrite idx_push. destruct (N.eqb v u); [discriminate|exact Hu].
+      - rewrite idx_push, N.eqb_refl. discriminate. }
+    destruct (visit_total f IHf st v W Hv (succs g v) [] (push v st)) as [s Hvis].
+    - intros d Hd. apply succs_edge in Hd. eapply Hcl; exact Hd.
+    - apply linvB_init; assumption.
+    - exact HUp.
+    - rewrite Hvis.
+      assert (HIH : forall v0 st0 st0', strong_connect f g v0 st0 = TOk st0' -> wf st0 -> idx st0 v0 = None ->
+                    wf st0' /\ bpost g st0 st0' v0) by (intros; eapply sc_sound; eauto).
+      pose proof (visit_sound g f HIH st v W Hv _ _ _ _ Hvis (linvB_init g st v W Hv)) as L.
+      cbn [app] in L. unfold finish. fold (low s v). fold (idx s v).
+      pose proof (lb_wf _ _ _ _ _ L) as Ws.
+      rewrite (lb_idx_v _ _ _ _ _ L).
+      destruct (w_low _ Ws v _ (lb_idx_v _ _ _ _ _ L)) as [l [Hl _]]. rewrite Hl.
+      destruct (N.eqb l st.(next_index)); [|eexists; reflexivity].
+      destruct (lb_stack _ _ _ _ _ L) as [X [HsX HX]].
+      assert (HvX : ~ In v X).
+      { intro Hin. pose proof (w_nodup _ Ws) as Hnd. rewrite HsX in Hnd.
+        apply NoDup_remove_2 in Hnd. apply Hnd. apply in_app_iff. left. exact Hin. }
+      destruct (pop_until_spec v X st.(stack) s.(on_stack) [] HvX) as [ons' [Hp _]].
+      rewrite HsX, Hp. cbn [app].
+      assert (Hnt : exists b, nontrivial g (X ++ [v]) = Some b).
+      { destruct X as [|x X].
+        - cbn. rewrite (proj2 (has_key_In g v) Hn). eexists. reflexivity.
+        - cbn. destruct (X ++ [v]) eqn:E; [destruct X; discriminate|]. eexists. reflexivity. }
+      destruct Hnt as [b Hb]. rewrite Hb. eexists. reflexivity.
+  Qed.
+
+  Lemma main_loop_total : forall fuel, length (nodes g) < fuel ->
+    forall ns st, (forall n, In n ns -> In n (nodes g)) -> wf st -> st.(stack) = [] ->
+    exists st', main_loop fuel g ns st = TOk st'.
+  Proof.
+    intros fuel Hfuel. induction ns as [|n t IH]; intros st Hns W Hs.
+    - exists st. reflexivity.
+    - cbn [main_loop]. fold (idx st n). destruct (idx st n) as [i|] eqn:En.
+      + apply IH; auto. intros. apply Hns. right. assumption.
+      + destruct (sc_total fuel n st W En (Hns n (or_introl eq_refl))) as [s1 Hs1].
+        * eapply Nat.le_lt_trans; [|exact Hfuel]. unfold unindexed_count.
+          clear. induction (nodes g) as [|x t IH]; [cbn; lia|]. cbn.
+          destruct (idx st x); cbn; lia.
+        * rewrite Hs1.
+          assert (Hml : main_loop fuel g [n] st = TOk s1).
+          { cbn [main_loop]. fold (idx st n). rewrite En, Hs1. reflexivity. }
+          destruct (main_loop_sound g fuel [n] st s1 Hml W Hs) as [W1 [Hs1' _]].
+          apply IH; auto. intros. apply Hns. right. assumption.
+  Qed.
+
+  Lemma find_cycles_total_proof : forall fuel, length g < fuel -> exists C, find_cycles fuel g = TOk C.
+  Proof.
+    intros fuel Hfuel. unfold find_cycles.
+    destruct (main_loop_total fuel) with (ns := nodes g) (st := t_init) as [st' Hm].
+    - unfold nodes. rewrite map_length. exact Hfuel.
+    - auto.
+    - constructor; cbn; try tauto; try (intros; discriminate); constructor.
+    - reflexivity.
+    - rewrite Hm. eexists. reflexivity.
+  Qed.
+End PartC.
+
+(* ======================================================================== *)
+
+Theorem tarjan_none_iff_acyclic_proof : forall g fuel, closed g -> length g < fuel ->
+  (find_cycles fuel g = TOk [] <-> ~ cyclic g).
+Proof.
+  intros g fuel Hcl Hfuel. split.
+  - apply find_cycles_none_acyclic.
+  - intros Hac. apply find_cycles_acyclic; assumption.
+Qed.
+
+(* the verdict, as the compiler uses it: an error is reported iff the returned set is non-empty *)
+Theorem tarjan_verdict_proof : forall g fuel, closed g -> length g < fuel ->
+  exists C, find_cycles fuel g = TOk C /\ (C = [] <-> ~ cyclic g).
+Proof.
+  intros g fuel Hcl Hfuel. destruct (find_cycles_total_proof g Hcl fuel Hfuel) as [C HC].
+  exists C. split; [exact HC|]. rewrite <- (tarjan_none_iff_acyclic_proof g fuel Hcl Hfuel), HC.
+  split; [intros ->; reflexivity|intros H; inversion H; reflexivity].
+Qed.
+
+Theorem tarjan_agrees_with_acyclic_dec_proof : forall g, closed g ->
+  exists C, find_cycles (S (length g)) g = TOk C /\ (C = [] <-> acyclic_dec g = true).
+Proof.
+  intros g Hcl. destruct (tarjan_verdict_proof g (S (length g)) Hcl (Nat.lt_succ_diag_r _)) as [C [HC HI]].
+  exists C. split; [exact HC|]. rewrite (acyclic_dec_spec_proof g Hcl). exact HI.
+Qed.
